@@ -12,8 +12,10 @@ from concurrent.futures import ThreadPoolExecutor
 from . import build, hxb
 
 VERIF = build.VERIF
-OUT = os.path.join(VERIF, 'out')
-EVIDENCE = os.path.join(VERIF, 'evidence')
+# VERIF_OUT / VERIF_EVIDENCE / VERIF_BUILD redirect scratch output (used only by tools/seedmatrix.py --scratch, which runs the
+# checks against a patched copy of the tree without disturbing runs against /repo); the registered commands never set them
+OUT = os.environ.get('VERIF_OUT', os.path.join(VERIF, 'out'))
+EVIDENCE = os.environ.get('VERIF_EVIDENCE', os.path.join(VERIF, 'evidence'))
 FINDINGS_TXT = os.path.join(VERIF, 'KNOWN_FINDINGS.txt')
 FINDINGS_DIR = os.path.join(VERIF, 'findings')
 NPROC = int(os.environ.get('VERIF_JOBS', '16'))
